@@ -702,3 +702,22 @@ Fixpoint py_enum_member (members : list pv) (v : pv) : pr pv :=
       | _ => PStuck
       end
   end.
+
+(* member.name for a member of an IntEnum (members are their integer values here): the table is the enum's,
+   read from the source; anything that is not a member has no .name the subset knows *)
+Definition py_enum_name (tbl : list (Z * str)) (v : pv) : pr pv :=
+  match v with
+  | VInt z => match find (fun p => Z.eqb (fst p) z) tbl with
+              | Some p => POk (VStr (snd p))
+              | None => PStuck
+              end
+  | _ => PStuck
+  end.
+
+(* text.lower(), for ASCII text (what the subset's texts are); other code points leave the subset *)
+Definition lower_cp (c : N) : N := if (65 <=? c)%N && (c <=? 90)%N then (c + 32)%N else c.
+Definition py_lower (v : pv) : pr pv :=
+  match v with
+  | VStr x => if forallb (fun c => (c <? 128)%N) x then POk (VStr (map lower_cp x)) else PStuck
+  | _ => PStuck
+  end.
